@@ -155,6 +155,123 @@ Proof.
   injection H1 as <- _. injection H2 as <- _. reflexivity.
 Qed.
 
+(* --- the container in which `used` is handed over does not matter ---
+   gc() takes Iterable[HashInfo]: a list, a set (any iteration order, duplicates collapsed),
+   a generator.  Two inputs that differ only in g_used, with the same MEMBERS, that both
+   succeed, give the same count and the same store. *)
+Definition with_used (i : gc_in) (u : list (list N * oid)) : gc_in :=
+  {| g_store := g_store i; g_alg := g_alg i; g_ro := g_ro i; g_used := u;
+     g_trees := g_trees i; g_shallow := g_shallow i; g_dry := g_dry i |}.
+
+Lemma filter_ext_bool {A} (p q : A -> bool) (l : list A) :
+  (forall x, p x = true <-> q x = true) -> filter p l = filter q l.
+Proof.
+  intros H. apply filter_ext. intros x. specialize (H x).
+  destruct (p x), (q x); try reflexivity; destruct H as [H1 H2];
+    [now specialize (H1 eq_refl)|now specialize (H2 eq_refl)].
+Qed.
+
+Lemma gc_used_set i u2 n1 s1 n2 s2 :
+  (forall x, In x (g_used i) <-> In x u2) ->
+  gc i = GcOk n1 s1 -> gc (with_used i u2) = GcOk n2 s2 -> n1 = n2 /\ s1 = s2.
+Proof.
+  intros Hm H1 H2.
+  destruct (gc_exact _ _ _ H1) as [b1 [Hb1 [-> ->]]].
+  destruct (gc_exact _ _ _ H2) as [b2 [Hb2 [-> ->]]]. cbn [with_used g_store g_dry].
+  assert (Hbb : forall o, b1 o = true <-> b2 o = true).
+  { intros o. rewrite Hb1, Hb2. unfold Used. cbn [with_used g_used g_alg g_shallow g_trees].
+    split; intros [v [Hin Hc]]; exists v; (split; [now apply Hm|exact Hc]). }
+  split.
+  - f_equal. f_equal. apply filter_ext_bool. intros o. rewrite !negb_true_iff.
+    specialize (Hbb o). destruct (b1 o), (b2 o); try tauto; destruct Hbb as [Ha Hb];
+      [now specialize (Ha eq_refl)|now specialize (Hb eq_refl)].
+  - destruct (g_dry i); [reflexivity|]. now apply filter_ext_bool.
+Qed.
+
+(* whether gc succeeds does not depend on the order either: it fails (not read-only) exactly
+   when some used directory object of the store's algorithm cannot be loaded in expanding mode *)
+Lemma used_hashes_fails alg shallow ld used : forall acc,
+  (exists k, used_hashes alg shallow ld used acc = inl k) <->
+  (shallow = false /\ exists v, In (alg, v) used /\ is_dir_oid v = true /\
+                               (ld v = LoadMissing \/ ld v = LoadCorrupt)).
+Proof.
+  induction used as [|[name value] r IH]; intros acc; cbn [used_hashes].
+  - split; [intros [k H]; discriminate|intros [_ [v [[] _]]]].
+  - destruct (list_N_eqb name alg) eqn:En; cbn [negb].
+    + apply list_N_eqb_spec in En. subst name.
+      destruct (is_dir_oid value && negb shallow) eqn:Ed.
+      * apply andb_true_iff in Ed as [Ed Es]. apply negb_true_iff in Es.
+        destruct (ld value) as [l| |] eqn:El.
+        -- rewrite IH. split.
+           ++ intros [Hs [v [Hin Hv]]]. split; [exact Hs|]. exists v. split; [now right|exact Hv].
+           ++ intros [Hs [v [[Hin|Hin] [Hd Hl]]]].
+              ** injection Hin as <-. rewrite El in Hl. destruct Hl; discriminate.
+              ** split; [exact Hs|]. exists v. auto.
+        -- split; [|intros _; now exists 2].
+           intros _. split; [exact Es|]. exists value. split; [now left|]. auto.
+        -- split; [|intros _; now exists 3].
+           intros _. split; [exact Es|]. exists value. split; [now left|]. auto.
+      * rewrite IH. split.
+        -- intros [Hs [v [Hin Hv]]]. split; [exact Hs|]. exists v. split; [now right|exact Hv].
+        -- intros [Hs [v [[Hin|Hin] [Hd Hl]]]].
+           ++ injection Hin as <-. rewrite Hd, Hs in Ed. discriminate.
+           ++ split; [exact Hs|]. exists v. auto.
+    + assert (Hne : name <> alg).
+      { intros ->. assert (list_N_eqb alg alg = true) by now apply list_N_eqb_spec. congruence. }
+      rewrite IH. split.
+      * intros [Hs [v [Hin Hv]]]. split; [exact Hs|]. exists v. split; [now right|exact Hv].
+      * intros [Hs [v [[Hin|Hin] Hv]]].
+        -- injection Hin as Hn _. congruence.
+        -- split; [exact Hs|]. exists v. auto.
+Qed.
+
+Definition LoadFails (i : gc_in) : Prop :=
+  g_shallow i = false /\ exists v, In (g_alg i, v) (g_used i) /\ is_dir_oid v = true /\
+    (load (g_trees i) v = LoadMissing \/ load (g_trees i) v = LoadCorrupt).
+
+Lemma gc_ok_iff i : (exists n s', gc i = GcOk n s') <-> (g_ro i = false /\ ~ LoadFails i).
+Proof.
+  unfold gc, LoadFails. destruct (g_ro i).
+  - split; [intros [n [s' H]]; discriminate|intros [H _]; discriminate].
+  - pose proof (used_hashes_fails (g_alg i) (g_shallow i) (load (g_trees i)) (g_used i) []) as Hf.
+    destruct (used_hashes _ _ _ _ _) as [k|u].
+    + split; [intros [n [s' H]]; discriminate|].
+      intros [_ Hn]. exfalso. apply Hn. apply Hf. now exists k.
+    + split; [|intros _; eauto].
+      intros _. split; [reflexivity|]. intros Hl. apply Hf in Hl as [k Hk]. discriminate.
+Qed.
+
+Lemma gc_ok_used_set i u2 :
+  (forall x, In x (g_used i) <-> In x u2) ->
+  (exists n s', gc i = GcOk n s') <-> (exists n s', gc (with_used i u2) = GcOk n s').
+Proof.
+  intros Hm. rewrite !gc_ok_iff. unfold LoadFails. cbn [with_used g_ro g_shallow g_alg g_used g_trees].
+  split; intros [Hr Hn]; (split; [exact Hr|]); intros [Hs [v [Hin Hv]]]; apply Hn;
+    (split; [exact Hs|]); exists v; (split; [now apply Hm|exact Hv]).
+Qed.
+
+(* --- the size of the store does not matter ---
+   The decision on an object depends on the object and on `used`, never on the rest of the
+   store: gc over a store s1 ++ s2 is gc over s1 and gc over s2 put together (counts add, the
+   remaining stores concatenate).  In particular any paging / batching of the scan at any
+   size is sound with respect to the model, and there is no threshold in it. *)
+Definition with_store (i : gc_in) (s : list oid) : gc_in :=
+  {| g_store := s; g_alg := g_alg i; g_ro := g_ro i; g_used := g_used i;
+     g_trees := g_trees i; g_shallow := g_shallow i; g_dry := g_dry i |}.
+
+Lemma gc_store_app i s1 s2 n s' :
+  g_store i = s1 ++ s2 -> gc i = GcOk n s' ->
+  exists n1 k1 n2 k2,
+    gc (with_store i s1) = GcOk n1 k1 /\ gc (with_store i s2) = GcOk n2 k2 /\
+    n = n1 + n2 /\ s' = k1 ++ k2.
+Proof.
+  unfold gc. cbn [with_store g_store g_alg g_ro g_used g_trees g_shallow g_dry].
+  intros Hs. rewrite Hs. destruct (g_ro i); [discriminate|].
+  destruct (used_hashes _ _ _ _ _) as [k|u]; [discriminate|].
+  intros H. injection H as <- <-. do 4 eexists. split; [reflexivity|]. split; [reflexivity|].
+  rewrite !filter_app, app_length. split; [lia|]. now destruct (g_dry i).
+Qed.
+
 (* non-vacuity: a concrete store where everything interesting happens *)
 Definition ex_dir : oid := [97; 97] ++ dot_dir.
 Definition ex_in (shallow dry : bool) : gc_in :=
@@ -168,4 +285,33 @@ Proof. vm_compute. reflexivity. Qed.
 Example gc_example_shallow : gc (ex_in true false) = GcOk 4 [ex_dir].
 Proof. vm_compute. reflexivity. Qed.
 Example gc_example_dry : gc (ex_in false true) = GcOk 3 (g_store (ex_in false true)).
+Proof. vm_compute. reflexivity. Qed.
+
+(* non-vacuity of the container / size statements *)
+Definition ex_used2 : list (list N * oid) :=
+  [([109], [9;9]); ([109], ex_dir); ([120], [3;3]); ([109], ex_dir)].   (* reordered, a duplicate *)
+Example gc_example_used_set :
+  (forall x, In x (g_used (ex_in false false)) <-> In x ex_used2) /\
+  gc (with_used (ex_in false false) ex_used2) = GcOk 3 [[1;1]; ex_dir].
+Proof.
+  split; [|vm_compute; reflexivity].
+  intros x. unfold ex_used2. cbn [ex_in g_used In]. tauto.
+Qed.
+Example gc_example_store_app :
+  g_store (ex_in false true) = [[1;1]; [2;2]] ++ [ex_dir; [3;3]; [4;4] ++ dot_dir] /\
+  gc (with_store (ex_in false true) [[1;1]; [2;2]]) = GcOk 1 [[1;1]; [2;2]] /\
+  gc (with_store (ex_in false true) [ex_dir; [3;3]; [4;4] ++ dot_dir])
+    = GcOk 2 [ex_dir; [3;3]; [4;4] ++ dot_dir].
+Proof. repeat split; vm_compute; reflexivity. Qed.
+Example gc_example_load_fails :
+  LoadFails (with_used (ex_in false false) [([109], [4;4] ++ dot_dir)]) /\
+  gc (with_used (ex_in false false) [([109], [4;4] ++ dot_dir)]) = GcErr 2.
+Proof.
+  split; [|vm_compute; reflexivity]. split; [reflexivity|]. exists ([4;4] ++ dot_dir).
+  split; [now left|]. split; [vm_compute; reflexivity|]. left. vm_compute. reflexivity.
+Qed.
+
+(* the literal helper of the harness: "0016fe09121c5befad0e28f817995156" (leading zeros kept) *)
+Example oid_hex32_example : oid_hex32 0x0016fe09121c5befad0e28f817995156 =
+  [48;48;49;54;102;101;48;57;49;50;49;99;53;98;101;102;97;100;48;101;50;56;102;56;49;55;57;57;53;49;53;54].
 Proof. vm_compute. reflexivity. Qed.
